@@ -87,8 +87,10 @@ static void* POOL_thread(void* opaque) {
             ctx->queueHead = (ctx->queueHead + 1) % ctx->queueSize;
             ctx->numThreadsBusy++;
             ctx->queueEmpty = (ctx->queueHead == ctx->queueTail);
-            /* Unlock the mutex, signal a pusher, and run the job */
-            ZSTD_pthread_cond_signal(&ctx->queuePushCond);
+            /* Unlock the mutex, wake up pushers and joiners, and run the job.
+             * note : POOL_add() and POOL_joinJobs() wait on the same condition :
+             * a single signal could be consumed by a joiner and strand a pusher */
+            ZSTD_pthread_cond_broadcast(&ctx->queuePushCond);
             ZSTD_pthread_mutex_unlock(&ctx->queueMutex);
 
             job.function(job.opaque);
@@ -96,7 +98,7 @@ static void* POOL_thread(void* opaque) {
             /* If the intended queue size was 0, signal after finishing job */
             ZSTD_pthread_mutex_lock(&ctx->queueMutex);
             ctx->numThreadsBusy--;
-            ZSTD_pthread_cond_signal(&ctx->queuePushCond);
+            ZSTD_pthread_cond_broadcast(&ctx->queuePushCond);
             ZSTD_pthread_mutex_unlock(&ctx->queueMutex);
         }
     }  /* for (;;) */
